@@ -218,8 +218,19 @@ func WideShapes(r *hx.Rng, budget int) []WideShape {
 
 // WideCorners: fixed programs for the remaining wide operands: argument counts, instance
 // variable indices, upvalue counts, element counts.
-func WideCorners() []WideShape {
+func WideCorners(huge bool) []WideShape {
 	var out []WideShape
+	if huge {
+		// bodies of more than 65535 bytes: the 16-bit jump distances cannot span them; the
+		// compiler must reject the program (or the validator sees a truncated distance)
+		body := strings.Repeat("    a = a * 7 - b\n", 9600)
+		out = append(out, WideShape{"wide:corner/if-body-over-64k",
+			"def huge(p: Int): Int\n  var a = p\n  var b = 1\n  if a > 3\n" + body + "  else\n    b = 2\n  end\n  a + b\nend\nprintln(huge(1).inspect)\n"})
+		out = append(out, WideShape{"wide:corner/loop-body-over-64k",
+			"def huge(p: Int): Int\n  var a = p\n  var b = 1\n  while a < 3\n" + body + "  end\n  a + b\nend\nprintln(huge(1).inspect)\n"})
+		out = append(out, WideShape{"wide:corner/code-over-64k-with-handlers",
+			"def huge(p: Int): Int\n  var a = p\n  var b = 1\n" + strings.Repeat("  a = a * 7 - b\n", 9600) + "  do\n    throw \"e\" if a > 2\n    while a < 9\n      a += 1\n      break if a > 5\n    end\n  catch String() as e\n    b = 2\n  finally\n    b += 1\n  end\n  a + b\nend\nprintln(huge(1).inspect)\n"})
+	}
 	seq := func(n int, f func(i int) string, sep string) string {
 		el := make([]string, n)
 		for i := range el {
